@@ -35,6 +35,76 @@ def apply_edits(edits):
     return overlay
 
 
+def apply_patch(text):
+    """Apply a unified diff (as written by `git diff`) to the current files of the repository, in memory: -> overlay or None when a hunk
+    does not match the current text exactly (the tree has moved on: the patch is inapplicable, not a verdict)."""
+    import re
+    overlay = {}
+    files = re.split(r'^diff --git .*$', text, flags=re.M)[1:]
+    for block in files:
+        m = re.search(r'^\+\+\+ b/(\S+)', block, flags=re.M)
+        mo = re.search(r'^--- (?:a/(\S+)|/dev/null)', block, flags=re.M)
+        if not m or not mo or mo.group(1) is None:
+            return None     # new or deleted files are not part of the corpora
+        rel = m.group(1)
+        path = os.path.join(REPO, rel)
+        if not os.path.exists(path):
+            return None
+        with open(path, encoding='utf-8') as f:
+            lines = f.read().split('\n')
+        out = []
+        pos = 0
+        hunks = re.split(r'^@@ -(\d+)(?:,(\d+))? \+\d+(?:,\d+)? @@.*$', block, flags=re.M)
+        for i in range(1, len(hunks), 3):
+            start = int(hunks[i]) - 1
+            body = hunks[i + 2].split('\n')[1:]
+            if start < pos:
+                return None
+            out += lines[pos:start]
+            pos = start
+            for l in body:
+                if l.startswith('\\'):
+                    continue
+                if l.startswith('+'):
+                    out.append(l[1:])
+                elif l.startswith('-') or l.startswith(' '):
+                    if pos >= len(lines) or lines[pos] != l[1:]:
+                        return None
+                    if l.startswith(' '):
+                        out.append(l[1:])
+                    pos += 1
+                elif l == '':
+                    # a blank context line whose leading space was stripped, or the end of the hunk
+                    if pos < len(lines) and lines[pos] == '' and body[-1] is not l:
+                        out.append('')
+                        pos += 1
+        out += lines[pos:]
+        src = '\n'.join(out)
+        try:
+            compile(src, rel, 'exec')
+        except SyntaxError:
+            return None
+        overlay[rel] = src
+    return overlay or None
+
+
+def corpus_variants(prop):
+    """The committed corpora as variants: seeded changes of this property must be reported, every refactoring twin must stay silent."""
+    base = os.path.dirname(os.path.dirname(os.path.dirname(os.path.abspath(__file__))))
+    out = []
+    for kind, sub in (('broken', 'seeded'), ('twin', 'twins')):
+        d = os.path.join(base, sub)
+        if not os.path.isdir(d):
+            continue
+        for name in sorted(os.listdir(d)):
+            pf = os.path.join(d, name, 'patch.diff')
+            if not os.path.exists(pf) or (sub == 'seeded' and not name.startswith(prop + '-')):
+                continue
+            with open(pf, encoding='utf-8') as f:
+                out.append({'name': '%s/%s' % (sub, name), 'kind': kind, 'prop': prop, 'overlay': apply_patch(f.read())})
+    return out
+
+
 _BASE = {}
 
 
@@ -86,12 +156,23 @@ def explore(prop, seed=0, pool=None):
     t0 = time.time()
     from . import autotwins as at
     auto = at.variants()
+    corp = corpus_variants(prop)
     with ProcessPoolExecutor(max_workers=min(16, os.cpu_count() or 4)) as ex:
         results = [r for _, r in ex.map(_job, [(prop, v) for v in vs])]
         auto_results = [r for _, r in ex.map(_job, [(prop, v) for v in auto], chunksize=2)]
+        corp_results = [r for _, r in ex.map(_job, [(prop, v) for v in corp], chunksize=2)]
     br = [r for r in results if r['kind'] == 'broken']
     tw = [r for r in results if r['kind'] == 'twin']
+    cb = [r for r in corp_results if r['kind'] == 'broken']
+    ct = [r for r in corp_results if r['kind'] == 'twin']
     return {
+        'seeded_changes': len(cb),
+        'seeded_reported': sum(1 for r in cb if r['result'] == 'fired'),
+        'seeded_not_reported': [r for r in cb if r['result'] not in ('fired', 'inapplicable')],
+        'refactoring_twins': len(ct),
+        'refactoring_twins_silent': sum(1 for r in ct if r['result'] == 'silent'),
+        'refactoring_twins_not_silent': [r for r in ct if r['result'] not in ('silent', 'inapplicable')],
+        'corpus_inapplicable': [r['name'] for r in corp_results if r['result'] == 'inapplicable'],
         'variants': len(vs),
         'broken_fired': sum(1 for r in br if r['result'] == 'fired'),
         'broken_silent': [r['name'] for r in br if r['result'] == 'silent'],
@@ -138,6 +219,11 @@ def main(props, seed=0):
         for r in res['autotwins_not_silent']:
             print('   ', r)
         bad += len(res['autotwins_not_silent'])
+        print('    corpora: seeded %d/%d reported, refactorings %d/%d silent, inapplicable %d' % (
+            res['seeded_reported'], res['seeded_changes'], res['refactoring_twins_silent'], res['refactoring_twins'], len(res['corpus_inapplicable'])))
+        for r in res['seeded_not_reported'] + res['refactoring_twins_not_silent']:
+            print('   ', r)
+        bad += len(res['seeded_not_reported']) + len(res['refactoring_twins_not_silent'])
         for r in res['details']:
             if r['result'] in ('crash',) or (r['kind'] == 'twin' and r['result'] != 'silent'):
                 print('   ', r)
